@@ -99,7 +99,7 @@ class VLoop(asyncio.BaseEventLoop):
         if not self._ready:
             live = self.live()
             pick = None
-            if live and self.chooser is not None:
+            if live and self.chooser is not None and not self._stopping:
                 names = live + ([TIMER] if sched and self.timer_choice else [])
                 pick = self.chooser(self, names)
             if pick is not None and pick != TIMER:
